@@ -29,6 +29,8 @@ func init() {
 			{ID: "C16.8", Desc: "the memory backend never hands out or keeps a caller-visible buffer", Run: func(c *Ctx) { ruleC14_2(c); renameRule(c, "C14.2", "C16.8") }, MinSites: 2},
 			{ID: "C16.9", Desc: "no slice of a pooled object's storage outlives its return to the pool", Run: ruleC16_9, MinSites: 0},
 			{ID: "C16.10", Desc: "a response object built by copying another one gets a header map of its own", Run: ruleC16_10, MinSites: 0},
+			{ID: "C16.11", Desc: "the background revalidation works on a copy of the caller's request", Run: func(c *Ctx) { ruleC20_6(c); renameRule(c, "C20.6", "C16.11") }, MinSites: 1},
+			{ID: "C16.12", Desc: "the value slices of the caller's request header are never written", Run: func(c *Ctx) { ruleCallerHeaderValuesUntouched(c, "C16.12") }, MinSites: 1},
 		},
 	})
 }
